@@ -35,7 +35,7 @@ def run(ctx):
 	schema_count = ctx.scale(12, 300)
 	features = {}
 	for index in range(schema_count):
-		generator = schemagen.SchemaGen(rng)
+		generator = schemagen.SchemaGen(rng, variant=index + ctx.seed)
 		text = generator.build()
 		for feature in generator.features:
 			features[feature] = features.get(feature, 0) + 1
